@@ -17,5 +17,6 @@ CONSTANTS
   MaxSteps = 1
   HostileSteps = 1
   AllScopes = FALSE
-  GenWhat = {"sublist"}
+  GenWhat = {"subnames", "sublist"}
+  GenFull = TRUE
 CHECK_DEADLOCK FALSE
